@@ -183,7 +183,16 @@ class Summary:
                 if name == "new" and (p.startswith("std::sync::") or p.startswith("std::cell::")) and c.args:
                     a = c.args[0]
                     if a["k"] == "const":
-                        if a.get("s") in ("true", "false"):
+                        ci = self.P.const_init(a)
+                        if ci and ci[0] == "bool":
+                            res = ("flag", ci[1])
+                        elif ci and ci[0] == "int":
+                            res = ("int", ci[1])
+                        elif ci and ci[0] == "variant" and ci[1] == "std::option::Option":
+                            targs = ((c.args[0].get("t") or {}).get("args") or [{}])
+                            isint = bool(targs) and targs[0].get("k") == "prim" and targs[0].get("s") in INT_TYS
+                            res = ("optcell", ci[2] == "Some", "int" if isint else "any")
+                        elif a.get("s") in ("true", "false"):
                             res = ("flag", a["s"] == "true")
                         elif "int" in a:
                             res = ("int", a["int"])
@@ -191,6 +200,28 @@ class Summary:
                             res = ("obj", a.get("s", "?"))
                         break
                     nxt = [t for t in cur_body.operand_prov(a)]
+                    if len(nxt) == 1 and nxt[0][0] == "const" and a.get("k") in ("copy", "move") and len(a["p"]) == 1:
+                        # a named constant bound to a local first (`let e = Self::NO_ERROR; RwLock::new(e)`)
+                        ds_ = [d for d in cur_body.defs.get(a["p"][0], []) if d[0] == "assign" and len(d[1]["lhs"]) == 1]
+                        hops_ = 0
+                        while len(ds_) == 1 and ds_[0][1]["rv"]["k"] == "use" and ds_[0][1]["rv"]["op"]["k"] in ("copy", "move") \
+                                and len(ds_[0][1]["rv"]["op"]["p"]) == 1 and hops_ < 4:
+                            hops_ += 1
+                            ds_ = [d for d in cur_body.defs.get(ds_[0][1]["rv"]["op"]["p"][0], []) if d[0] == "assign" and len(d[1]["lhs"]) == 1]
+                        if len(ds_) == 1 and ds_[0][1]["rv"]["k"] == "use" and ds_[0][1]["rv"]["op"]["k"] == "const":
+                            ci = self.P.const_init(ds_[0][1]["rv"]["op"])
+                            if ci and ci[0] == "bool":
+                                res = ("flag", ci[1])
+                                break
+                            if ci and ci[0] == "int":
+                                res = ("int", ci[1])
+                                break
+                            if ci and ci[0] == "variant" and ci[1] == "std::option::Option":
+                                lty = cur_body.locals[a["p"][0]]["ty"]
+                                targs = (lty.get("args") or [{}])
+                                isint = bool(targs) and targs[0].get("k") == "prim" and targs[0].get("s") in INT_TYS
+                                res = ("optcell", ci[2] == "Some", "int" if isint else "any")
+                                break
                     if len(nxt) == 1 and nxt[0][0] == "const" and isinstance(nxt[0][1], str):
                         # a constant that reached the constructor through a local (an inlined helper's parameter)
                         import re
@@ -341,7 +372,11 @@ class Summary:
         if isinstance(base, tuple) and base and base[0] in ("elem", "item", "stored", "captured", "mapped", "front", "back", "error",
                                                              "combined", "boxed", "adt", "itemfield") and all(e == "*" for e in projs):
             return base          # a reference to a value the abstraction only names: the name stands for it
+        if isinstance(base, tuple) and base and base[0] == "valref":
+            # `match &previous { Some(p) => .. }`: projections through a reference to a local that holds a structured value
+            base, projs = base[1], [e_ for e_ in projs if e_ != "*"]
         if base is not None and "*" not in projs:
+            # (a reference to a structured value held in the environment stands for that value: `match &previous { Some(p) => .. }`)
             v = base
             for e in projs:
                 if isinstance(v, tuple) and v and v[0] == "tuple" and e.startswith(".") and e[1:].split(":")[0].isdigit():
@@ -424,6 +459,8 @@ class Summary:
             # a reference to a value the abstraction names (the item, a captured value, ..) stands for it;
             # references to cells are resolved at the dereference through provenance instead
             v = self.read_place(p, rv["p"])
+            if len(rv["p"]) == 1 and isinstance(v, tuple) and v and v[0] in ("opt", "tuple", "res"):
+                return ("valref", v)      # a reference to a LOCAL holding a structured value (not to a cell: those are re-read at the deref)
             if isinstance(v, tuple) and v and v[0] in ("captured", "item", "error", "stored", "front", "back", "bufcopy",
                                                        "window", "mapped", "tuple", "opt", "int", "bconst", "bvar", "cmp", "not",
                                                        "and", "or", "ord", "combined", "elem"):
@@ -858,6 +895,7 @@ class Summary:
             return done(p, ("cmp", "Eq" if path.endswith("::eq") else "Ne", self.operand(p, c.args[0], True), self.operand(p, c.args[1], True)))
         if path in ("std::cmp::PartialEq::eq", "std::cmp::PartialEq::ne") and len(c.args) == 2:
             o1, o2 = self.operand(p, c.args[0]), self.operand(p, c.args[1])
+            o1, o2 = (o[1] if isinstance(o, tuple) and o and o[0] == "valref" else o for o in (o1, o2))     # `x == &Some(k)`
             if all(isinstance(o, tuple) and o and o[0] == "opt" and is_bool(o[1]) for o in (o1, o2)) and \
                     all(is_int(o[2]) or o[1] == FALSE for o in (o1, o2)):
                 both = ("and", o1[1], o2[1])
